@@ -31,7 +31,7 @@ func c15cfg(todoMask int) *Cfg {
 	}
 	st := Service{Name: "st", Constructor: P("pk.New1"), Args: []any{"real-st"}}
 	if todoMask&4 != 0 {
-		st = Service{Name: "st", Todo: P(true)}
+		st = Service{Name: "st", Todo: P(true), Getter: P("GetSd")} // a left-over getter that a real service uses as well
 	}
 	su := Service{Name: "su", Constructor: P("pk.New2")}
 	if todoMask&8 != 0 {
@@ -43,7 +43,7 @@ func c15cfg(todoMask int) *Cfg {
 			Fields: []KV{{"F1", "@sp"}, {"F2", "!tagged nobody"}}, Tags: []Tag{{Name: "tg"}}}
 	}
 	cfg.Services = []Service{st, su,
-		{Name: "sd", Constructor: P("pk.New"), Args: []any{"@st", "%pd%"}, Fields: []KV{{"F1", "@su"}}},
+		{Name: "sd", Constructor: P("pk.New"), Args: []any{"@st", "%pd%"}, Fields: []KV{{"F1", "@su"}}, Getter: P("GetSd")},
 		{Name: "sp", Constructor: P("pk2.New"), Args: []any{"%pd2%"}},
 	}
 	return cfg
